@@ -733,9 +733,11 @@ int main(int argc, char *argv[])
     scontext.output_nodeset = nodeset;
     scontext.nodeset_input = nodeseti;
     scontext.cpuset_input_format = cpuset_input_format;
-    if (hwloc_calc_process_location_as_set(&lcontext, &scontext, argv[0]) < 0)
-      fprintf(stderr, "ignored unrecognized argument %s\n", argv[0]);
-    else
+    if (hwloc_calc_process_location_as_set(&lcontext, &scontext, argv[0]) < 0) {
+      fprintf(stderr, "unrecognized argument %s\n", argv[0]);
+      ret = EXIT_FAILURE;
+      goto out;
+    } else
       cmdline_locations++;
 
   next:
